@@ -162,16 +162,6 @@ func computeRangeLength(start, stop, step Int) Int {
 	return res
 }
 
-func getIndexWithDefault(i Object, d Int) (Int, error) {
-	if i == None {
-		return d, nil
-	} else if res, err := Index(i); err != nil {
-		return 0, err
-	} else {
-		return res, nil
-	}
-}
-
 func computeNegativeIndex(index, length Int) Int {
 	if index < 0 {
 		index += length
@@ -179,59 +169,18 @@ func computeNegativeIndex(index, length Int) Int {
 	return index
 }
 
-func computeBoundIndex(index, length Int) Int {
-	if index < 0 {
-		index = 0
-	} else if index > length {
-		index = length
-	}
-	return index
-}
-
 func computeRangeSlice(r *Range, s *Slice) (Object, error) {
-	start, err := getIndexWithDefault(s.Start, 0)
+	// as CPython's compute_slice: normalise the slice against the length
+	// of the range, then map the bounds through the range
+	start, stop, step, sliceLength, err := s.GetIndices(int(r.Length))
 	if err != nil {
 		return nil, err
 	}
-	stop, err := getIndexWithDefault(s.Stop, r.Length)
-	if err != nil {
-		return nil, err
-	}
-	step, err := getIndexWithDefault(s.Step, 1)
-	if err != nil {
-		return nil, err
-	}
-
-	if step == 0 {
-		return nil, ExceptionNewf(ValueError, "slice step cannot be zero")
-	}
-	start = computeNegativeIndex(start, r.Length)
-	stop = computeNegativeIndex(stop, r.Length)
-
-	start = computeBoundIndex(start, r.Length)
-	stop = computeBoundIndex(stop, r.Length)
-
-	startIndex := computeItem(r, start)
-	stopIndex := computeItem(r, stop)
-	stepIndex := step * r.Step
-
-	var sliceLength Int
-	if start < stop {
-		if stepIndex < 0 {
-			startIndex, stopIndex = stopIndex-1, startIndex-1
-		}
-	} else {
-		if stepIndex < 0 {
-			startIndex, stopIndex = stopIndex+1, startIndex+1
-		}
-	}
-	sliceLength = computeRangeLength(startIndex, stopIndex, stepIndex)
-
 	return &Range{
-		Start:  startIndex,
-		Stop:   stopIndex,
-		Step:   stepIndex,
-		Length: sliceLength,
+		Start:  computeItem(r, Int(start)),
+		Stop:   computeItem(r, Int(stop)),
+		Step:   Int(step) * r.Step,
+		Length: Int(sliceLength),
 	}, nil
 }
 
